@@ -71,7 +71,7 @@ type Context struct {
 	ValidateArrayDataFunc  func(data []byte)
 
 	// Marker/Reference
-	markerID               string
+	markerIDs              []string // IDs of the markers whose objects are still open (innermost last)
 	markedObjects          map[interface{}]DataType
 	forwardLocalReferences map[interface{}]DataType
 	LocalReferenceCount    uint64
@@ -89,6 +89,7 @@ func (_this *Context) Reset() {
 	_this.containerDepth = 0
 	_this.LocalReferenceCount = 0
 	_this.stack = _this.stack[:0]
+	_this.markerIDs = _this.markerIDs[:0]
 	_this.recordTypes = make(map[string]int)
 	if _this.markedObjects == nil || len(_this.markedObjects) > 0 {
 		_this.markedObjects = make(map[interface{}]DataType)
@@ -319,12 +320,12 @@ func (_this *Context) BeginNode() {
 }
 
 func (_this *Context) BeginMarkerKeyable(id []byte, dataType DataType) {
-	_this.markerID = string(id)
+	_this.markerIDs = append(_this.markerIDs, string(id))
 	_this.stackRule(&markedObjectKeyableRule, dataType, noObjectCount)
 }
 
 func (_this *Context) BeginMarkerAnyType(id []byte, dataType DataType) {
-	_this.markerID = string(id)
+	_this.markerIDs = append(_this.markerIDs, string(id))
 	_this.stackRule(&markedObjectAnyTypeRule, dataType, noObjectCount)
 }
 
@@ -357,7 +358,8 @@ func (_this *Context) MarkObject(dataType DataType) {
 		panic(fmt.Errorf("too many marked objects (%d). Max is %d", newLocalReferenceCount, _this.config.Rules.MaxLocalReferenceCount))
 	}
 
-	id := _this.markerID
+	id := _this.markerIDs[len(_this.markerIDs)-1]
+	_this.markerIDs = _this.markerIDs[:len(_this.markerIDs)-1]
 	if _, exists := _this.markedObjects[id]; exists {
 		panic(fmt.Errorf("marker ID [%v] already exists", id))
 	}
